@@ -30,6 +30,7 @@ structure World where
   rid : Bytes
   ids : List Bytes
   ver : Bytes
+  pol : FlushPolicy := {}
 
 /-- the journal / latest record of unit `i` -/
 def unitRec (W : World) (i : Int) (mt : Int) : Rec :=
@@ -77,8 +78,8 @@ def step (W : World) (s : Sys) : Step → Sys
     | none => s
     | some r =>
       if i ∈ s.committed ∧ r.startSeq < i then
-        { s with run := some { r with coord := (coordOnCommitted r.coord (unitRec W i mt) now).1 },
-                 queue := s.queue ++ (coordOnCommitted r.coord (unitRec W i mt) now).2 }
+        { s with run := some { r with coord := (coordOnCommitted r.coord (unitRec W i mt) now W.pol).1 },
+                 queue := s.queue ++ (coordOnCommitted r.coord (unitRec W i mt) now W.pol).2 }
       else s
   | .tick now => match s.run with
     | none => s
